@@ -22,7 +22,8 @@ install_demo || { echo "NOT-CONFIRMED demo does not install"; exit 1; }
 if ! $DEMO > "$W/demo_clean.log" 2>&1; then echo "NOT-CONFIRMED demo fails on the clean tree"; tail -15 "$W/demo_clean.log"; exit 1; fi
 grep -qE "test result: ok. [1-9]" "$W/demo_clean.log" || { echo "NOT-CONFIRMED demo ran no test on clean tree"; exit 1; }
 # 1: apply
-patch -p1 -s --no-backup-if-mismatch < "$M/patch.diff" || { echo "NOT-CONFIRMED patch does not apply"; exit 1; }
+(git apply --3way "$M/patch.diff" 2>/dev/null || patch -p1 -s --no-backup-if-mismatch < "$M/patch.diff") || { echo "NOT-CONFIRMED patch does not apply"; exit 1; }
+git diff --name-only --diff-filter=U | grep -q . && { echo "NOT-CONFIRMED merge conflict"; exit 1; }
 # 3: demo fails with the change
 if $DEMO > "$W/demo_mut.log" 2>&1; then echo "NOT-CONFIRMED demo passes with the change"; exit 1; fi
 grep -qE "error(\[E[0-9]+\])?:" "$W/demo_mut.log" && grep -q "could not compile" "$W/demo_mut.log" && { echo "NOT-CONFIRMED does not compile"; tail -20 "$W/demo_mut.log"; exit 1; }
